@@ -69,6 +69,13 @@ def impl(case):
             out.update(exactcommon.run_alg(alg, ds, sch, amo, coder, s))
             probs = list(cplex.PROBLEMS)
             out["n_problems"] = len(probs)
+            if config in ("selector-opt", "cplex-opt"):
+                subs = []
+                for pr in probs:
+                    rows, obj = exactcommon.standin_rows(pr, s)
+                    subs.append({"rows": exactcommon.uniq_rows(rows), "objective": obj})
+                out["sub_problems"] = subs
+                out["univ"] = [coder.code(ds.mapping_id_elem[i].value) for i in range(ds.nb_elements)]
             if len(probs) == 1 and config in ("selector-noopt", "cplex-noopt", "paperoptim1"):
                 rows, obj = exactcommon.standin_rows(probs[0], s)
                 out["rows"] = exactcommon.uniq_rows(rows)
@@ -97,6 +104,13 @@ def ops(case, out):
     if "rows" in out:
         active = 1 if case["config"] == "paperoptim1" else 0
         res.append(("ilp.rows", [t, [out["backend"], [out["comps"], [active, 0]]]]))
+    if "sub_problems" in out:
+        # optimised CPLEX path: one ILP per component that cannot be all tied, on the projected dataset
+        res.append(("part.parcons", [t, [out["comps"], 1000]]))
+        S = lib.scheme_tree(case["scheme"])
+        for comp in out["comps"]:
+            keep = [out["univ"][i] for i in comp]
+            res.append(("ilp.subrows", [S, [out["obs"], [keep, 1]]]))
     return res
 
 
@@ -113,7 +127,7 @@ def judge(case, out, answers):
     if not out["flag"]:
         holds = False
         diff.append("exact result not marked necessarily optimal")
-    if len(answers) > 1:
+    if "rows" in out:
         mrows, mobj = answers[1]
         mrows = exactcommon.uniq_rows([[sorted(r[0]), r[1], r[2]] for r in mrows])
         irows = out["rows"]
@@ -125,6 +139,19 @@ def judge(case, out, answers):
         if mo != out["objective"]:
             diff.append("objective differs: model %s impl %s" % (mo[:6], out["objective"][:6]))
         tags.append("rows-compared")
+    if "sub_problems" in out:
+        base = 2 if "rows" in out else 1
+        mask = answers[base][2]
+        hard = [k for k, tied in enumerate(mask) if not tied]
+        if len(hard) != len(out["sub_problems"]):
+            diff.append("optimised path: %d ILPs solved, %d components cannot be all tied" % (len(out["sub_problems"]), len(hard)))
+        else:
+            for sp, k in zip(out["sub_problems"], hard):
+                mrows, mobj, _ = answers[base + 1 + k]
+                mrows = exactcommon.uniq_rows([[sorted(r[0]), r[1], r[2]] for r in mrows])
+                if mrows != sp["rows"] or sorted([p for p in mobj if p[1] != 0]) != sp["objective"]:
+                    diff.append("optimised path: ILP of component %s differs from the model's sub-problem" % out["comps"][k])
+            tags.append("subrows-compared")
     n = len(out["table"])
     comps = out["comps"]
     nontrivial = len(comps) >= 2 and out.get("n_problems", 0) >= 1
